@@ -129,6 +129,7 @@ struct stub_integrand
     int dist_kinds = 0;       // 0: no projector use; 1 finite value; 5 with non-finite values
     bool dist_x_symbolic = true;
     bool projector_optional = false;  // fork: the integrand may skip projector.add at a point
+    bool key_by_coords = false;       // real engines (concrete, distinct coordinates): a point is identified by its coordinates
     mutable bool sanitize = false;    // return zero wherever the stored value is not finite ("the same points returned zero")
 
     T evaluate(hep::mc_point<T> const& p, hep::projector<T>* proj) const
@@ -142,7 +143,8 @@ struct stub_integrand
             r.channel = mp->channel();
             salt = 100 + r.channel;
         }
-        key_t key = tab->call_key(salt);
+        key_t key = key_by_coords ? key_of(r.coords, salt) : tab->call_key(salt);
+        if (key_by_coords) tab->last_key = key;
         auto it = tab->f.find(key);
         if (it == tab->f.end())
         {
